@@ -130,9 +130,22 @@ def random_case(ctx: Ctx) -> dict[str, Any]:
             renames.append({"from": ft, "to": r.choice([ft + "x", r.choice(alphabet)]),
                             "children": r.sample(alphabet + ["Tabsent"], k=r.choice([1, 2]))})
     cfg = {"async": r.random() < 0.6, "groups": groups, "renames": renames}
+    if r.random() < 0.4:
+        # real nanosecond times: whole seconds from a present-day epoch minus a few hundred ns, so that the emitted
+        # end time has to carry a rounding into the seconds (order and overlaps are unchanged)
+        T0 = 1_700_000_000 + r.randrange(10**6)
+        d = r.choice([0, 1, 300, 499, 500, 501, 999])
+        ctx.tick("random_epoch_ns")
+        epoch = (T0, d)
+    else:
+        epoch = None
     order = list(range(n))
     r.shuffle(order)
     case = mk_case(parents, ivs, types, cfg, order=order)
+    if epoch:
+        for s in case["spans"]:
+            s["start"] = (epoch[0] * NS + s["start"]) // NS * 10**9 - epoch[1]
+            s["end"] = (epoch[0] * NS + s["end"]) // NS * 10**9 - epoch[1]
     for s in case["spans"]:
         r.shuffle(s["children"])
     ctx.tick("random")
@@ -288,7 +301,7 @@ def judge(case: dict[str, Any], out: dict[str, Any], want: dict[str, Any]) -> tu
             bad.append(f"{e['eventId']}: job id/name/application not preserved")
         if e["eventType"] != want["types"][s["id"]]:
             bad.append(f"{e['eventId']}: type {e['eventType']!r}, rules give {want['types'][s['id']]!r}")
-        if e["timestamp"] != expected_string(s["end"] // 1000):
+        if e["timestamp"] not in (expected_string(s["end"] // 1000), expected_string(-(-s["end"] // 1000))):
             bad.append(f"{e['eventId']}: timestamp {e['timestamp']!r} for end {s['end']}")
     if links != want["links"]:
         diff = {i: (links[i], want["links"][i]) for i in links if links[i] != want["links"][i]}
